@@ -67,10 +67,11 @@ def gen_one(rng, i, tier):
     for d in shape:
         nmat *= d
     mats = [gen_matrix(rng, kind) for _ in range(nmat)]
-    a1 = rng.choice([0.01, 0.05, 0.1, rng.uniform(0.001, 0.5)])
-    a2 = rng.choice([0.2, 0.5, 0.9, rng.uniform(a1, 0.999)])
+    # alpha in (0,1): the usual levels, and levels so small that 1 - alpha/2 is not representable (isf vs ppf(1 - .))
+    a1 = rng.choice([0.01, 0.05, 0.1, rng.uniform(0.001, 0.5), 10.0 ** (-rng.uniform(3, 25))])
+    a2 = rng.choice([0.2, 0.5, 0.9, rng.uniform(a1, 0.999), 1 - 10.0 ** (-rng.uniform(3, 12))])
     return {"kind": kind, "shape": shape, "mats": mats, "alpha1": a1, "alpha2": max(a1, a2),
-            "via": rng.choice(["functions", "class"])}
+            "via": rng.choice(["functions", "class"]), "alpha_kw": rng.random() < 0.5}
 
 
 def nontrivial(inp):
@@ -97,9 +98,12 @@ def build(inp) -> Case:
     cmobj = ConfusionMatrix(matrix=arr, binary=True)
 
     def get(name, *a):
+        kw = {}
+        if a and inp.get("alpha_kw"):  # alpha by keyword (the ConfusionMatrix wrappers forward **kwargs)
+            a, kw = (), {"alpha": a[0]}
         if inp["via"] == "class":
-            return getattr(cmobj, name)(*a)
-        return getattr(metrics, name)(arr, *a)
+            return getattr(cmobj, name)(*a, **kw)
+        return getattr(metrics, name)(arr, *a, **kw)
 
     obs = {}
     for name in RATE_NAMES + COUNT_NAMES:
